@@ -200,19 +200,15 @@ pub fn judge_server(out: &mut Outcome, server: &refimpl::server::Server, c: &Cas
         match e {
             ClientEvent::ConnectInitial(ci) => {
                 let core = &ci.blocks.core;
+                // (desktop size and keyboard layout are not asserted: no listed property says how the configuration maps to them)
                 if !for_c04 {
-                    if core.width != c.cfg.width || core.height != c.cfg.height {
-                        out.fail("config:screen", format!("CS_CORE desktop {}x{} configured {}x{}", core.width, core.height, c.cfg.width, c.cfg.height));
-                    }
-                    if core.kbd_layout != c.cfg.layout() as u32 {
-                        out.fail("config:layout", format!("CS_CORE keyboardLayout {:#x} configured {:#x}", core.kbd_layout, c.cfg.layout() as u32));
-                    }
                     if core.server_selected_protocol != Some(c.profile.selected_protocol) {
                         out.fail("identifier:selected-protocol", format!("CS_CORE serverSelectedProtocol {:?} but the server selected {}", core.server_selected_protocol, c.profile.selected_protocol));
                     }
                 }
+                // string contents are C04's business ("strings are encoded and terminated as specified")
                 let want: Vec<u16> = c.cfg.name.encode_utf16().collect();
-                let ok = if want.len() <= 15 { core.client_name == want } else { core.client_name.len() <= 15 && want.starts_with(&core.client_name) && !core.client_name.is_empty() };
+                let ok = !for_c04 || if want.len() <= 15 { core.client_name == want } else { core.client_name.len() <= 15 && want.starts_with(&core.client_name) && !core.client_name.is_empty() };
                 if !ok {
                     out.fail("config:client-name", format!("CS_CORE clientName {:?} for configured name {:?} ({} UTF-16 units)", String::from_utf16_lossy(&core.client_name), c.cfg.name, want.len()));
                 }
@@ -220,12 +216,12 @@ pub fn judge_server(out: &mut Outcome, server: &refimpl::server::Server, c: &Cas
             ClientEvent::ClientInfo { info, .. } => {
                 let (d, u, p) = if c.cfg.restricted_admin { (String::new(), String::new(), String::new()) } else { (c.cfg.domain.clone(), c.cfg.user.clone(), c.cfg.password.clone()) };
                 let u16s = |x: &str| x.encode_utf16().collect::<Vec<u16>>();
-                if info.domain != u16s(&d) || info.user != u16s(&u) || info.password != u16s(&p) {
+                // which strings the Client Info carries in which mode, and the auto-logon flag, are C17's statement; C04 checks
+                // that what sec::connect was given comes out encoded as specified
+                if for_c04 && (info.domain != u16s(&d) || info.user != u16s(&u) || info.password != u16s(&p)) {
                     out.fail("config:client-info-strings", format!("client info carries domain/user/password {:?}/{:?}/{:?}", String::from_utf16_lossy(&info.domain), String::from_utf16_lossy(&info.user), String::from_utf16_lossy(&info.password)));
                 }
-                if (info.flags & INFO_AUTOLOGON != 0) != c.cfg.auto_logon {
-                    out.fail("config:autologon", format!("INFO_AUTOLOGON {} but auto_logon configured {}", info.flags & INFO_AUTOLOGON != 0, c.cfg.auto_logon));
-                }
+                let _ = INFO_AUTOLOGON;
             }
             _ => {}
         }
